@@ -17,6 +17,20 @@ TRUSTED_BASE = [
     "modelled, not verified: libclang, rustc, clang, syn/quote/proc_macro2, regex, cexpr, clap, rustfmt, OS process/pipe semantics",
 ]
 
+def _heal_dev_null():
+    """`rustc -o /dev/null` run as root replaces the device by a regular file, after which every
+    `stdin=DEVNULL` reads garbage.  Recreate the device if that happened (observed once)."""
+    import stat
+    try:
+        if not stat.S_ISCHR(os.stat("/dev/null").st_mode):
+            os.remove("/dev/null")
+            os.mknod("/dev/null", 0o666 | stat.S_IFCHR, os.makedev(1, 3))
+            os.chmod("/dev/null", 0o666)
+    except OSError:
+        pass
+
+
+_heal_dev_null()
 os.makedirs(CACHE, exist_ok=True)
 os.makedirs(EVIDENCE, exist_ok=True)
 os.makedirs(REPLAYS, exist_ok=True)
@@ -30,14 +44,16 @@ def env_clean():
     e["BGMODEL"] = os.path.join(LEAN, ".lake", "build", "bin", "bgmodel")
     e["BINDGEN_CLI"] = os.path.join(TARGET, "debug", "bindgen")
     e["VERIF_DIR"] = VERIF
+    e["VERIF_REPO"] = REPO
     return e
 
 
 def sh(cmd, cwd=None, env=None, timeout=None, input=None, check=False):
     """Run a command, return (rc, stdout+stderr text)."""
-    p = subprocess.run(cmd, cwd=cwd, env=env or env_clean(), timeout=timeout, input=input,
+    kw = {"input": input} if input is not None else {"stdin": subprocess.DEVNULL}
+    p = subprocess.run(cmd, cwd=cwd, env=env or env_clean(), timeout=timeout,
                        stdout=subprocess.PIPE, stderr=subprocess.STDOUT, text=True,
-                       errors="replace")
+                       errors="replace", **kw)
     out = "\n".join(l for l in p.stdout.splitlines() if "conda.cli.condarc" not in l)
     if check and p.returncode != 0:
         raise RuntimeError("command failed: %s\n%s" % (cmd, out[-4000:]))
@@ -195,9 +211,21 @@ def run_model(lines, timeout=3600):
 
 HOOK_RUSTFLAGS = "--cfg bindgen_verif"
 
+def ensure_repo_link():
+    """Point the harness' path dependency at the tree under verification (VERIF_REPO, default /repo)."""
+    import re as _re
+    man = os.path.join(HARNESS, "Cargo.toml")
+    text = open(man).read()
+    want = 'bindgen = { path = "%s/bindgen", features = ["__cli"] }' % os.path.realpath(REPO)
+    new = _re.sub(r'bindgen = \{ path = "[^"]*", features = \["__cli"\] \}', want, text)
+    if new != text:
+        open(man, "w").write(new)
+
+
 def cargo_build_harness(bins=None, timeout=3600):
     """Build the harness (and through its path dependency, bindgen from /repo's working
     tree with hooks on).  Returns (ok, log)."""
+    ensure_repo_link()
     lock = os.path.join(HARNESS, "Cargo.lock")
     if not os.path.exists(lock):
         shutil.copy(os.path.join(REPO, "Cargo.lock"), lock)
@@ -304,6 +332,49 @@ class Result:
             suffix = "" if v["found_input"] else " no-failing-input-found"
             print("VIOLATION property=%s replay=%s%s" % (self.prop, path, suffix))
         return 1
+
+
+def conclude(res, lean, regen, rep, run_log=""):
+    """Standard decision logic shared by the checks.
+
+    lean  = result of lean_obligations();  regen = (ok, log) of regen_tables();
+    rep   = harness report with lists `oracle_failures`, `correspondence_failures`, `machinery`.
+    An oracle failure is a concrete failing input: VIOLATION with that input as replay.  A broken
+    proof obligation / translator / correspondence without any oracle failure is still a
+    VIOLATION, reported with `no-failing-input-found` and the name of what no longer checks."""
+    broken = list(lean.get("failures", []))
+    if regen is not None and not regen[0]:
+        broken.append("translator: " + regen[1][-1500:])
+    if rep is None:
+        res.violation("machinery-error", "harness produced no report", run_log[-3000:], found_input=False)
+        return
+    oracle = rep.get("oracle_failures", [])
+    corr = rep.get("correspondence_failures", [])
+    for o in oracle[:3]:
+        cls = o.get("class", "oracle") if isinstance(o, dict) else "oracle"
+        detail = "implementation fails the property's own oracle"
+        if broken:
+            detail += "; also broken: " + "; ".join(broken)[:1500]
+        res.violation("oracle-failure", cls, detail, o, True)
+    if not oracle:
+        for b in broken:
+            kind = "translator" if b.startswith("translator:") else "proof-obligation"
+            res.violation(kind, b[:600], lean.get("log", "")[-3000:], None, False)
+        for c in corr[:3]:
+            cls = c.get("class", "correspondence") if isinstance(c, dict) else "correspondence"
+            res.violation("correspondence", "model no longer matches the implementation (%s); the theorems no longer speak about this code" % cls,
+                          "model != implementation, no oracle failure found by the search", c, False)
+    for m in rep.get("machinery", [])[:3]:
+        res.violation("machinery-error", str(m)[:600], run_log[-2000:], None, False)
+
+
+def proof_coverage(res, lean, prop, extra_checker=""):
+    res.coverage.update({
+        "obligations": lean["obligations"], "discharged": lean["discharged"],
+        "theorems": lean["theorems"],
+        "checker_cmd": "python3 translator/translate.py /repo lean/BindgenModel/Generated && (cd lean && lake build %s bgmodel) && lake env lean <#print axioms audit of every listed theorem>%s%s"
+                       % (" ".join(props_index()[prop]["modules"]), " && lake env leanchecker <modules>" if res.tier == "thorough" else "", extra_checker),
+    })
 
 
 def seed_from_env():
